@@ -758,4 +758,27 @@ Section Steps.
           -- apply (N3 i m x Hm Hx). symmetry. exact Hu.
         * exact Hs.
   Qed.
+
+  (* ---------------- what a reader sees across a step ---------------- *)
+  (* the same stored entries in another place: every read, at every sequence number, is unchanged *)
+  Theorem reads_same st st' : bfull st -> bfull st' -> same_elems (all_entries (absS st)) (all_entries (absS st')) ->
+    forall k s, wf_bytes k -> s <= keyMaxSeq p -> getb st' k s = getb st k s.
+  Proof.
+    intros B B' SE k s Wk Hs.
+    rewrite (get_correct_bytes c ok p pok seek_val mp mpok tp crc decompress fname ufc verify ri k s Wk Hs st' (bf_wf _ B')).
+    rewrite (get_correct_bytes c ok p pok seek_val mp mpok tp crc decompress fname ufc verify ri k s Wk Hs st (bf_wf _ B)).
+    rewrite (newest_same_elems c ok k s _ _ (bf_uniq _ B) SE). reflexivity.
+  Qed.
+
+  (* a table compaction with the drop rule: every read at a sequence number >= minSeq returns the same value *)
+  Theorem reads_kept st st' minSeq : bfull st -> bfull st' ->
+    (forall k s, minSeq <= s ->
+       History.res p (newest c k s (all_entries (absS st')) None) = History.res p (newest c k s (all_entries (absS st)) None)) ->
+    forall k s, wf_bytes k -> minSeq <= s -> s <= keyMaxSeq p -> bapi (getb st' k s) = bapi (getb st k s).
+  Proof.
+    intros B B' H k s Wk Hm Hs.
+    rewrite (get_correct_bytes c ok p pok seek_val mp mpok tp crc decompress fname ufc verify ri k s Wk Hs st' (bf_wf _ B')).
+    rewrite (get_correct_bytes c ok p pok seek_val mp mpok tp crc decompress fname ufc verify ri k s Wk Hs st (bf_wf _ B)).
+    cbn [bapi]. f_equal. apply (H k s Hm).
+  Qed.
 End Steps.
